@@ -17,19 +17,23 @@ MANIFEST = {
             "i), and of the TAP001 / TAP003 kill chains transcribed method by method (per tick the stage stays, moves to the "
             "next stage, to FAILED, or restarts per repeat_kill_chain; no stage is skipped; a stage body runs only after a "
             "successful response, exceptions listed; actions_concluded is absorbing and set exactly per settings; execution "
-            "slots respect start/frequency/variance). Tie: enums, dispatch order, comparators, defaults and the vector shape "
+            "slots respect start/frequency/variance; run level: gaps between consecutive execution slots lie in [max 1 (f-v), max 1 (f+v)], "
+            "every non-idle action is returned in a slot, actions_concluded implies repeat off and a finished chain), and of RandomAgent "
+            "(returns the sampled entry of its action map). Tie: enums, dispatch order, comparators, defaults and the vector shape "
             "regenerated from the sources (Gen/Agents.lean, obligations C19_gen_*) + differential rig R-agent feeding the real "
             "agents timesteps, prescribed draws and synthetic responses, plus property oracles on agent.history in the shipped "
-            "UC2 / UC7 scenarios under random blue actions.",
+            "UC2 / UC7 scenarios under random blue actions; get_action signatures vs the game's call, the empty-history guard, the EXPLOIT "
+            "trial guard and the source expression of every TAP action parameter are regenerated and pinned (C19_gen_*), and a "
+            "parameter oracle recomputes every parameter of every TAP action from the settings.",
     "note": "C19-specific: numpy's Generator.choice and random.randint/choice/random are modelled, not verified; probabilities in "
             "the rig are dyadic so that float comparison is exact; action *parameters* other than node / application / scan "
-            "target are not compared.",
+            "target are checked by a pinned source table plus an implementation-side oracle, not by a theorem.",
     "technique": "Lean 4 theorems over executable agent models; models tied by regenerated tables and a differential rig",
     "design_ref": "5/C19",
 }
-MODULES = ["PrimaiteModel.Props.C19"]
+MODULES = ["PrimaiteModel.Props.C19", "PrimaiteModel.Props.C19Sched"]
 EXE = "drv_c19"
-KINDS = ["periodic", "prob", "tap1", "tap3"]
+KINDS = ["periodic", "prob", "tap1", "tap3", "rand"]
 
 
 def _diff_case(case: dict):
@@ -77,7 +81,11 @@ def _gen_obligations(ctx: Ctx):
     from primaite.game.agent.scripted_agents.abstract_tap import KillChainStageProgress
     from primaite.game.agent.scripted_agents.TAP001 import MobileMalwareKillChain
     from primaite.game.agent.scripted_agents.TAP003 import InsiderKillChain
-    text = x_agents.emit()
+    try:
+        text = x_agents.emit()
+    except Exception as e:      # strict extractor: an unrecognised source shape is a broken obligation, not a crash of the check
+        ctx.oblige("gen-crosscheck:extractor", "extractor", False, f"{type(e).__name__}: {e}")
+        return
     for name, enum in (("mobileMalwareKillChain", MobileMalwareKillChain), ("insiderKillChain", InsiderKillChain),
                        ("stageProgress", KillChainStageProgress)):
         want = "[" + ", ".join(f'("{m.name}", {int(m.value)})' for m in enum) + "]"
@@ -94,16 +102,17 @@ def run(ctx: Ctx):
         ctx.extract("Agents", x_agents.emit)
         ctx.prove(MODULES, exes=[EXE], clean=False, leanchecker=ctx.thorough)
     _gen_obligations(ctx)
-    ctx.cov["rule"] = ("cases = (agent kind in {periodic, data-manipulation, probabilistic, TAP001, TAP003}, settings, prescribed draws, "
+    ctx.cov["rule"] = ("cases = (agent kind in {periodic, data-manipulation, probabilistic, TAP001, TAP003, random}, settings, prescribed draws, "
                        "synthetic response sequence); a case is non-trivial when the agent acts at least twice (periodic), selects an "
                        "action from a table with a zero entry (probabilistic), or leaves the first kill-chain stage / fails / raises "
-                       "(TAP); distinct by canonical JSON")
+                       "(TAP), or returns two different entries / raises (random); distinct by canonical JSON")
     cases = []
     for f in sorted((VERIF / "corpus" / "C19").glob("*.json")):
         rec = json.loads(f.read_text())
         if "case" in rec:
             cases.append(("corpus:" + f.name, rec["case"]))
-    per_kind = {"periodic": ctx.scale(250, 4000), "prob": ctx.scale(250, 4000), "tap1": ctx.scale(300, 5000), "tap3": ctx.scale(300, 5000)}
+    per_kind = {"periodic": ctx.scale(250, 4000), "prob": ctx.scale(250, 4000), "tap1": ctx.scale(300, 5000), "tap3": ctx.scale(300, 5000),
+                "rand": ctx.scale(60, 600)}
     for kind in KINDS:
         rng = ctx.rng.fork("agents:" + kind)
         for k in range(per_kind[kind]):
@@ -130,6 +139,11 @@ def run(ctx: Ctx):
         _histogram(ctx, kind, case, impl)
         ctx.case(case, _nontrivial(kind, case, impl))
         for p in problems:
+            if p.startswith("params: "):
+                # property oracle on the implementation alone: every parameter of an action comes from the settings
+                ctx.violation({"kind": "oracle", "agent": case["agent"], "what": "action-parameters-not-from-settings"},
+                              f"{case['agent']} ({name}): {p[8:]}", {"case": case, "from": name})
+                continue
             rig_ok = False
             ctx.oblige(f"rig:draw-ranges:{name}", "correspondence", False, p)
         a, b = rig.normalise(case, impl, model)
@@ -176,6 +190,8 @@ def _nontrivial(kind: str, case: dict, impl: List[str]) -> bool:
         return sum(1 for l in impl if l.startswith("exec")) >= 2 or any(l.startswith("raised") for l in impl)
     if kind == "prob":
         return any(w == 0 for _, w in case["table"]) and any(l.startswith("chose") for l in impl)
+    if kind == "rand":
+        return len({l for l in impl}) > 1 or any(l.startswith("raised") for l in impl)
     stages = {l.split("|")[1].split()[0] for l in impl if "|" in l}
     return len(stages - {"NOT_STARTED", "DOWNLOAD", "RECONNAISSANCE"}) > 0 or any(l.startswith("raised") for l in impl)
 
